@@ -360,13 +360,17 @@ def client_case(spec, res):
     peer = Peer(ctx, ep, scripts)
     peer.start()
     use_async = spec['idx'] % 3 == 2
+    # a caller that sends one message object again and again (a polling loop) versus a fresh mapping per call
+    reuse = rnd.random() < .4
+    shared = {'command': 'list', 'properties': {}}
+    res.obs['client_cases_reusing_one_message_object'] += int(reuse)
     try:
         if not use_async:
             cl = CircusClient(context=ctx, endpoint=ep, timeout=0.25)
             for k, script in enumerate(scripts):
                 t0 = time.time()
                 try:
-                    r = cl.call({'command': 'list', 'properties': {}})
+                    r = cl.call(shared if reuse else {'command': 'list', 'properties': {}})
                     out = ('reply', r)
                 except CallError as e:
                     out = ('callerror', str(e))
@@ -375,13 +379,14 @@ def client_case(spec, res):
                 judge_client(res, 'CircusClient', k, script, out, peer, time.time() - t0)
             cl.stop()
         else:
-            async_client(res, ctx, ep, scripts, peer)
+            async_client(res, ctx, ep, scripts, peer, shared if reuse else None)
     finally:
         peer.stop_flag = True
         peer.join(2)
         ctx.destroy(linger=0)
         shutil.rmtree(d, ignore_errors=True)
-    res.sample = {'client': 'AsyncCircusClient' if use_async else 'CircusClient', 'reply_scripts': scripts}
+    res.sample = {'client': 'AsyncCircusClient' if use_async else 'CircusClient', 'reply_scripts': scripts,
+                  'one_message_object_reused': reuse}
 
 
 def judge_client(res, which, k, script, out, peer, took):
@@ -411,7 +416,7 @@ def judge_client(res, which, k, script, out, peer, took):
         res.nontrivial(key + ':' + out[0])
 
 
-def async_client(res, ctx, ep, scripts, peer):
+def async_client(res, ctx, ep, scripts, peer, shared=None):
     import asyncio
     from tornado import ioloop
     from circus.client import AsyncCircusClient
@@ -429,7 +434,8 @@ def async_client(res, ctx, ep, scripts, peer):
                 res.ambiguous['AsyncCircusClient has no timeout: silence script skipped'] += 1
                 break
             try:
-                r = yield gen.with_timeout(loop.time() + 3.0, cl.call({'command': 'list', 'properties': {}}))
+                r = yield gen.with_timeout(loop.time() + 3.0,
+                                          cl.call(shared if shared is not None else {'command': 'list', 'properties': {}}))
                 outs.append(('reply', r))
             except gen.TimeoutError:
                 outs.append(('callerror', 'harness watchdog: no return within 3 s'))
